@@ -243,6 +243,7 @@ def run_cfg(ctx, cfg):
 
     # ---- rule 4: results carrying the cancellation channel must be used ------------------
     results_used(ctx, crate, tag)
+    ctx.guard("short-circuit" + tag, cancelled_ends_the_run, ctx, crate, crates(ctx, cfg), tag)
 
     # ---- rule 5: short circuit in encode ---------------------------------------------------
     enc = body_by_key(crate, ENC + "encode", coroutine=True)
@@ -307,6 +308,65 @@ def results_used(ctx, crate, tag, prefixes=("resolvo::solver::", "resolvo::confl
             ctx.ob("result-must-use" + tag, b.key, "result of %s" % strip_generics(f["path"]).split("::")[-1], ok,
                    where_call(b, i), how)
     ctx.floor("result-must-use" + tag, "cancellation-carrying Result call sites", n_res, floor)
+
+
+def cancelled_ends_the_run(ctx, crate, crs, tag, prefix="resolvo::solver::"):
+    """Where a Result whose error type has a `Cancelled` variant is taken apart by hand (run_sat's match on the outcome of
+    propagate), the execution in which the error *is* the cancellation must leave the function with that cancellation: following,
+    from the Err edge, only the `Cancelled` side of every test of the error's variant, no loop may be continued (a restart would
+    swallow a cancellation that the provider raises only once - seed C12-20) and no return may be reached that was not preceded by
+    the construction of a `Cancelled(..)` value."""
+    n = 0
+    for b in crate.bodies:
+        if not b.key.startswith(prefix) or b.kind == "Closure" and False:
+            continue
+        cs = q.conds(b, crs)
+        for c in cs:
+            if c.kind != "discr" or not (c.adt or "").endswith("result::Result") or c.src_place is None:
+                continue
+            ty = c.src_place.get("ty") or b.local_ty(c.src_place["l"])
+            if c.src_place.get("p"):
+                continue
+            if not ("PropagationError" in ty or "UnsolvableOrCancelled" in ty) or not ty.startswith("std::result::Result<"):
+                continue
+            et = c.target("Err")
+            if et is None:
+                continue
+            # switches on the variant of this very error value
+            inner = {}
+            for c2 in cs:
+                if c2.kind == "discr" and ((c2.adt or "").endswith("PropagationError") or (c2.adt or "").endswith("UnsolvableOrCancelled")):
+                    d2 = c2.src or {}
+                    sp = c2.src_place or {}
+                    same = sp.get("l") == c.src_place["l"] or (d2.get("k") in ("local", "rvalue", "call", "arg", "multi") and
+                                                                c.src_place["l"] in q.slice_locals(b, {"k": "copy", "p": {"l": sp.get("l")}}))
+                    if same and c2.target("Cancelled") is not None:
+                        inner[c2.bb] = c2.target("Cancelled")
+            builds = {i for i, j, s_ in b.assigns() if s_["r"]["k"] == "agg" and s_["r"].get("variant") == "Cancelled"}
+            heads = {h for h, body, _ in b.loops() if c.bb in body}
+            S = b.succs()
+            seen = {et}
+            st = [et]
+            bad = None
+            while st and bad is None:
+                x = st.pop()
+                if x in builds:
+                    continue
+                if b.blocks[x]["term"]["k"] == "return":
+                    bad = "a return that does not carry the cancellation (%s)" % b.loc(x)
+                    break
+                for y in ([inner[x]] if x in inner else S[x]):
+                    if y in heads:
+                        bad = "the loop is continued (%s)" % b.loc(x)
+                        break
+                    if y not in seen:
+                        seen.add(y)
+                        st.append(y)
+            n += 1
+            ctx.ob("short-circuit" + tag, b.key, "cancelled-outcome-ends-the-run", bad is None, b.loc(c.bb),
+                   "when the matched error is the cancellation, the function returns Cancelled(..) without going round its loop again" if bad is None
+                   else "with a Cancelled error the execution reaches " + bad)
+    ctx.floor("short-circuit" + tag, "hand-written matches on a cancellation-carrying Result", n, 1)
 
 
 def fan_outs(ctx, crate, tag, prefix="resolvo::solver::", floor=2):
